@@ -175,7 +175,8 @@ Inductive op :=
 | DefCtor (h : nat) | CopyCtor (h g : nat) | MoveCtor (h g : nat) | ConvCtor (h g : nat)
 | RawCtor (h : nat) (p : option id) | Dtor (h : nat)
 | CopyAssign (h g : nat) | MoveAssign (h g : nat) | RawAssign (h : nat) (p : option id)
-| RefInc (o : id) | RefDec (o : id).
+| RefInc (o : id) | RefDec (o : id)
+| ConvMoveCtor (h g : nat).   (* IntrusivePtr<T> x(std::move(y)) with y an IntrusivePtr<O>, O another type *)
 
 Record sstate := mkS { s_heap : heap; s_hs : list slot }.
 Definition init (nh : nat) : sstate := mkS (mkHeap [] false []) (repeat SDead nh).
@@ -201,6 +202,7 @@ Definition legal (s : sstate) (o : op) : bool :=
   | RawAssign h p => is_live hs h && ptr_ok hp p
   | RefInc o => alive (getobj hp o)
   | RefDec o => alive (getobj hp o) && (1 <=? creator (getobj hp o))
+  | ConvMoveCtor h g => is_deadslot hs h && is_live hs g
   end.
 
 Definition no_loc : nat -> option id := fun _ => None.
@@ -227,6 +229,9 @@ Definition exec_op (tbl : meth -> list mop) (s : sstate) (o : op) : sstate :=
   | RawAssign h p => call tbl MRawAssign h (ARaw p) (cj_of hp p) s
   | RefInc o => mkS (rmw_inc true o hp) (s_hs s)
   | RefDec o => mkS (rmw_dec true o hp) (s_hs s)
+  (* no converting move constructor is declared: overload resolution selects the converting
+     copy constructor (const IntrusivePtr<O>&), the source keeps its reference *)
+  | ConvMoveCtor h g => call tbl MConvCtor h (AOwn g) None s
   end.
 
 (* a call outside the client's contract is rejected (visible to the differential run) *)
@@ -564,3 +569,98 @@ Definition cmp_ok (c : cmpfacts) : bool :=
                     Bool.eqb (ceval (c_ne c) (fst p) (snd p)) (negb (fst p =? snd p)) &&
                     Bool.eqb (ceval (c_lt c) (fst p) (snd p)) (fst p <? snd p)) cmp_pts &&
   a_bool c && a_arrow c && a_deref c.
+
+(* ---------------------------------------------------------------- declared members and overload resolution *)
+(* every constructor / destructor / assignment operator / conversion operator / other method
+   declared in IntrusivePtr<T> and RefCountedObject; DOther = a declaration the model does not know *)
+Inductive mdecl :=
+| DDefCtor | DDtor | DCopyCtor | DMoveCtor | DConvCopyCtorT | DRawCtor
+| DCopyAssign | DMoveAssign | DRawAssign | DOpBool | DOpStar | DOpArrow | DFieldPtr
+| DRcDefCtor | DRcVirtDtor | DRcDeletedCopy (n : nat) | DRefInc | DRefDec | DUseCount | DFieldCounter
+| DOther (n : nat).
+Definition mdecl_eqb (a b : mdecl) : bool :=
+  match a, b with
+  | DDefCtor, DDefCtor | DDtor, DDtor | DCopyCtor, DCopyCtor | DMoveCtor, DMoveCtor
+  | DConvCopyCtorT, DConvCopyCtorT | DRawCtor, DRawCtor | DCopyAssign, DCopyAssign
+  | DMoveAssign, DMoveAssign | DRawAssign, DRawAssign | DOpBool, DOpBool | DOpStar, DOpStar
+  | DOpArrow, DOpArrow | DFieldPtr, DFieldPtr | DRcDefCtor, DRcDefCtor | DRcVirtDtor, DRcVirtDtor
+  | DRefInc, DRefInc | DRefDec, DRefDec | DUseCount, DUseCount | DFieldCounter, DFieldCounter => true
+  | DRcDeletedCopy n, DRcDeletedCopy n' => Nat.eqb n n'
+  | _, _ => false
+  end.
+Definition model_members : list mdecl :=
+  [DFieldPtr; DDefCtor; DDtor; DCopyCtor; DMoveCtor; DConvCopyCtorT; DRawCtor;
+   DCopyAssign; DMoveAssign; DRawAssign; DOpBool; DOpStar; DOpArrow;
+   DFieldCounter; DRcDefCtor; DRcVirtDtor; DRcDeletedCopy 4; DRefInc; DRefDec; DUseCount].
+Definition members_ok (l : list mdecl) : bool := list_eqb mdecl_eqb l model_members.
+
+(* the call forms the machines (and the harness) perform, and which declared member overload
+   resolution selects for each; via = how the argument reaches the selected member *)
+Inductive cform :=
+| FDef | FCopyL | FMoveR | FConvL | FConvR | FConvTemp | FRawC | FDtorF
+| FAssignL | FAssignR | FAssignRaw | FAssignConvL | FAssignConvR.
+Inductive via := VDirect | VTemp (m : meth) | VUnknown.
+Definition all_cforms := [FDef; FCopyL; FMoveR; FConvL; FConvR; FConvTemp; FRawC; FDtorF;
+                          FAssignL; FAssignR; FAssignRaw; FAssignConvL; FAssignConvR].
+Definition model_sel (f : cform) : option meth * via :=
+  match f with
+  | FDef => (Some MDefCtor, VDirect)
+  | FCopyL => (Some MCopyCtor, VDirect)
+  | FMoveR => (Some MMoveCtor, VDirect)
+  | FConvL => (Some MConvCtor, VDirect)
+  | FConvR => (Some MConvCtor, VDirect)            (* rvalue of another handle type binds to const IntrusivePtr<O>& *)
+  | FConvTemp => (Some MConvCtor, VDirect)         (* IntrusivePtr<T> x = IntrusivePtr<O>(p) *)
+  | FRawC => (Some MRawCtor, VDirect)
+  | FDtorF => (Some MDtor, VDirect)
+  | FAssignL => (Some MCopyAssign, VDirect)
+  | FAssignR => (Some MMoveAssign, VDirect)
+  | FAssignRaw => (Some MRawAssign, VDirect)
+  | FAssignConvL => (Some MMoveAssign, VTemp MConvCtor)   (* x = y, y of another handle type: temporary by the converting ctor *)
+  | FAssignConvR => (Some MMoveAssign, VTemp MConvCtor)
+  end.
+Definition meth_eqb (a b : meth) : bool :=
+  match a, b with
+  | MDtor, MDtor | MDefCtor, MDefCtor | MCopyCtor, MCopyCtor | MMoveCtor, MMoveCtor | MConvCtor, MConvCtor
+  | MRawCtor, MRawCtor | MCopyAssign, MCopyAssign | MMoveAssign, MMoveAssign | MRawAssign, MRawAssign => true
+  | _, _ => false
+  end.
+Definition sel_eqb (a b : option meth * via) : bool :=
+  (match fst a, fst b with Some x, Some y => meth_eqb x y | _, _ => false end) &&
+  (match snd a, snd b with
+   | VDirect, VDirect => true
+   | VTemp x, VTemp y => meth_eqb x y
+   | _, _ => false
+   end).
+Definition sel_ok (sel : cform -> option meth * via) : bool :=
+  forallb (fun f => sel_eqb (sel f) (model_sel f)) all_cforms.
+
+(* the sequential machine with every operation dispatched through a selection table: the
+   member run for an operation is the one overload resolution selects for its call form *)
+Definition form_of (o : op) : option cform :=
+  match o with
+  | Create | RefInc _ | RefDec _ => None
+  | DefCtor _ => Some FDef | CopyCtor _ _ => Some FCopyL | MoveCtor _ _ => Some FMoveR
+  | ConvCtor _ _ => Some FConvL | ConvMoveCtor _ _ => Some FConvR | RawCtor _ _ => Some FRawC
+  | Dtor _ => Some FDtorF | CopyAssign _ _ => Some FAssignL | MoveAssign _ _ => Some FAssignR
+  | RawAssign _ _ => Some FAssignRaw
+  end.
+Definition op_this_arg (hp : heap) (o : op) : nat * argv * option id :=
+  match o with
+  | DefCtor h | Dtor h => (h, ANone, None)
+  | CopyCtor h g | MoveCtor h g | ConvCtor h g | ConvMoveCtor h g | CopyAssign h g | MoveAssign h g => (h, AOwn g, None)
+  | RawCtor h p | RawAssign h p => (h, ARaw p, cj_of hp p)
+  | _ => (O, ANone, None)
+  end.
+Definition exec_op_s (sel : cform -> option meth * via) (tbl : meth -> list mop) (s : sstate) (o : op) : sstate :=
+  match form_of o with
+  | None => exec_op tbl s o
+  | Some f =>
+      match fst (sel f) with
+      | Some m => let '(h, a, cj) := op_this_arg (s_heap s) o in call tbl m h a cj s
+      | None => mkS (set_err (s_heap s)) (s_hs s)        (* a member the model does not know *)
+      end
+  end.
+Definition step_s sel tbl (s : sstate) (o : op) : sstate * bool :=
+  if legal s o then (exec_op_s sel tbl s o, true) else (s, false).
+Definition run_s sel tbl (nh : nat) (l : list op) : sstate :=
+  fold_left (fun s o => fst (step_s sel tbl s o)) l (init nh).
